@@ -9,5 +9,7 @@ CONSTANTS
   N = 4
   Starts = {1}
   Modes = {"route"}
+  MaxMut = 2
+  DEV_SetterKeepsDistance = FALSE
   DEV_NoLoopGuard = FALSE
 INVARIANT Emit
